@@ -599,6 +599,10 @@ func init() {
 			if rd, ok := st.obj(p.obj).ext.(*readerExt); ok {
 				return ex.readerReadFull(st, p.obj, rd, buf)
 			}
+			if _, ok := st.obj(p.obj).ext.(*randBufExt); ok {
+				ex.checkWrite(st, st.wobj(p.obj))
+				return ex.randFill(st, buf)
+			}
 		}
 		panic(engineErr("io.ReadFull on unmodelled reader %v", r.typ))
 	}
@@ -754,6 +758,18 @@ func init() {
 	}
 	intrinsics["bufio.NewReader"] = func(ex *Exec, st *State, fr *Frame, c *ssa.Call, a []Value) Value {
 		r := a[0].(*IfaceVal)
+		if r.typ == ex.opaqueT {
+			if op, isOp := r.val.(*Opaque); isOp && op.desc == "crypto/rand.Reader" {
+				// a buffered reader over the system random source: an object with a cursor and a buffer of
+				// its own (not safe for concurrent use); every read from it is a write to that object
+				o := st.newObject(objCell, nil)
+				o.val = &StructVal{}
+				o.ext = &randBufExt{}
+				site, _ := ex.repoSite(st)
+				o.site = "buffered reader over crypto/rand.Reader created at " + site
+				return &Ptr{obj: o.id}
+			}
+		}
 		p, ok := r.val.(*Ptr)
 		if !ok || p.obj == 0 {
 			panic(engineErr("bufio.NewReader on unmodelled reader"))
@@ -777,6 +793,10 @@ func init() {
 	intrinsics["bufio.NewReaderSize"] = intrinsics["bufio.NewReader"]
 	intrinsics["(*bufio.Reader).Read"] = func(ex *Exec, st *State, fr *Frame, c *ssa.Call, a []Value) Value {
 		p := a[0].(*Ptr)
+		if _, ok := st.obj(p.obj).ext.(*randBufExt); ok {
+			ex.checkWrite(st, st.wobj(p.obj))
+			return ex.randFill(st, a[1].(*SliceVal))
+		}
 		rd := st.obj(p.obj).ext.(*readerExt)
 		buf := a[1].(*SliceVal)
 		avail := mkBin(OpSub, rd.src.len, rd.pos)
@@ -1219,6 +1239,10 @@ func (r *readerExt) cloneExt() Ext { n := *r; return &n }
 type bufExt struct{ cells []*Term }
 
 func (b *bufExt) cloneExt() Ext { return &bufExt{cells: append([]*Term(nil), b.cells...)} }
+
+type randBufExt struct{}
+
+func (m *randBufExt) cloneExt() Ext { return m }
 
 type syncMapExt struct{ keys, vals []Value }
 
